@@ -44,6 +44,15 @@ type LoadConfig struct {
 	Overlay  map[string][]byte
 	Patterns []string // default ./...
 	Dir      string   // default RepoDir
+	// Extra loads further module roots inside the repository (separate Go
+	// modules such as examples/) into the same program.
+	Extra []ExtraLoad
+}
+
+// ExtraLoad is one additional packages.Load call.
+type ExtraLoad struct {
+	Dir      string
+	Patterns []string
 }
 
 func env() []string {
@@ -83,6 +92,18 @@ func Load(lc LoadConfig) (*Program, error) {
 	pkgs, err := packages.Load(cfg, lc.Patterns...)
 	if err != nil {
 		return nil, fmt.Errorf("packages.Load: %w", err)
+	}
+	for _, x := range lc.Extra {
+		c2 := *cfg
+		c2.Dir = x.Dir
+		more, err := packages.Load(&c2, x.Patterns...)
+		if err != nil {
+			return nil, fmt.Errorf("packages.Load(%s): %w", x.Dir, err)
+		}
+		if len(more) == 0 {
+			return nil, fmt.Errorf("no packages loaded from %s", x.Dir)
+		}
+		pkgs = append(pkgs, more...)
 	}
 	var errs []string
 	for _, p := range pkgs {
